@@ -171,6 +171,23 @@ def o2(W, ob):
     for t in [t for t in e.calls() if callee_matches(t.callee, COMP + '::delta_encode')]:
         r0 = key(W.ctx(e).expr_operand(t.args[0]))
         ob.check(r0 == 'arg1', 'encode|reference', 'encode deltas against the reference', 'delta_encode receives `%s` as reference' % r0, where(e, t.line))
+        r1 = key(W.ctx(e).expr_operand(t.args[1]))
+        ob.check(r1 == 'arg2', 'encode|whole-sequence', 'encode hands the whole input sequence to the delta layer',
+                 'delta_encode receives `%s`, not the input sequence as given (inputs are dropped or reordered before encoding)' % r1[:120], where(e, t.line))
+    # no adaptor that drops, repeats or reorders elements anywhere in the codec
+    LOSSY = {'take', 'skip', 'step_by', 'filter', 'filter_map', 'take_while', 'skip_while', 'rev', 'chain', 'cycle', 'dedup', 'truncate', 'nth', 'last',
+             'map_while', 'skip_last', 'split_off', 'drain', 'retain', 'pop', 'remove', 'swap_remove', 'clear', 'sort', 'sort_unstable', 'reverse'}
+    for nm in ('encode', 'delta_encode', 'decode', 'delta_decode'):
+        f = W.fn(COMP + '::' + nm)
+        bad = [t for g in [f] + W.closures_of(f) for t in g.calls() if last_seg(t.callee.best) in LOSSY]
+        ob.check(not bad, '%s|no-lossy-adaptor' % nm, '%s applies no element-dropping or reordering operation' % nm,
+                 '%s calls %s: elements of the sequence are dropped, repeated or reordered' % (nm, sorted({last_seg(t.callee.best) for t in bad})),
+                 where(f, bad[0].line if bad else None))
+    # the writer's loop runs over exactly the sequence it was given
+    nx = [t for t in enc.calls() if last_seg(t.callee.best) == 'next']
+    outer = [t for t in nx if key(cxe.expr_operand(t.args[0])) in ('arg2', 'IntoIterator::into_iter(arg2)', 'into_iter(arg2)')]
+    ob.check(len(outer) == 1, 'delta_encode|iterates-input', 'delta_encode\'s outer loop pulls from the sequence it was given',
+             'delta_encode has %d `next` call(s) on its input sequence' % len(outer), where(enc))
 
 
 def o3(W, ob):
@@ -195,6 +212,172 @@ def o3(W, ob):
     ob.check(not alloc, 'delta_decode|no-sized-allocation', 'delta_decode allocates only copies of slices of its input', 'delta_decode allocates by a computed size', where(d))
 
 
+def _mask_atom(a):
+    """(mask, is_set) for a guard atom that tests one bit of the run header: (v & m) != 0 / == 0 / == m, ((v >> s) & 1) == 1 / != 0 / == 0"""
+    import re
+    if a[0] not in ('lin', 'ne') or len(a[1]) != 1 or a[1][0][1] not in (1, -1):
+        return None
+    k, c = a[1][0]
+    m = re.match(r'^\((\S+) BitAnd (\d+)\)$', k)
+    m2 = re.match(r'^\(\((\S+) Shr (\d+)\) BitAnd 1\)$', k)
+    if m:
+        mask = int(m.group(2))
+    elif m2:
+        mask = 1 << int(m2.group(2))
+    else:
+        return None
+    top = mask if m else 1
+    if a[0] == 'ne':
+        v = a[2] * c
+        if v == 0:
+            return (mask, True)
+        if v == top:
+            return (mask, False)
+        return None
+    lo, hi = a[2], a[3]
+    if c == -1:
+        lo, hi = (None if hi is None else -hi), (None if lo is None else -lo)
+    if lo == hi == 0:
+        return (mask, False)
+    if lo == hi == top:
+        return (mask, True)
+    if lo is not None and lo >= 1 and (hi is None or hi >= top):
+        return (mask, True)
+    return None
+
+
+def _bit_conditions(g):
+    """the header-bit tests every disjunct of a guard contains: set of (mask, is_set)"""
+    out = None
+    for c in g:
+        s = set(x for x in (_mask_atom(a) for a in c) if x)
+        out = s if out is None else out & s
+    return out or set()
+
+
+def o4(W, ob):
+    """the run-length layer: ggrs reads with its own total decoder what the dependency bitfield_rle writes"""
+    import re
+    wc = W.fn('bitfield_rle::write_contiguous')
+    wn = W.fn('bitfield_rle::write_noncontiguous')
+
+    def header_ops(f):
+        cx, G = W.ctx(f), W.guards(f)
+        enc = [t for t in f.calls() if callee_matches(t.callee, 'varinteger::encode')]
+        if len(enc) != 1 or not enc[0].args[0].is_place():
+            raise AnchorMissing('%s: the one varint::encode call' % f.path)
+        ops = []
+        loc = enc[0].args[0].place.local
+        for _ in range(4):   # through by-value copies into the argument temporary
+            ds = list(cx.full_defs(loc))
+            if len(ds) == 1 and ds[0][0] == 'stmt' and ds[0][1].rv.k == 'use' and ds[0][1].rv.a.is_place() and not ds[0][1].rv.a.place.proj:
+                loc = ds[0][1].rv.a.place.local
+            else:
+                break
+        for k, d in cx.full_defs(loc):
+            if k != 'stmt':
+                continue
+            e = cx.expr_rvalue(d.rv)
+            if e[0] == 'bin' and e[1] in ('Shl', 'Add', 'BitOr') and e[3][0] == 'int':
+                ops.append((e[1], int(e[3][1]), G.guard(d.bb)))
+        return ops
+    oc, on = header_ops(wc), header_ops(wn)
+    shl_run = [v for o, v, g in oc if o == 'Shl']
+    flags = [(v, g) for o, v, g in oc if o in ('Add', 'BitOr')]
+    shl_lit = [v for o, v, g in on if o == 'Shl']
+    lit_flags = [v for o, v, g in on if o in ('Add', 'BitOr')]
+    uncond = [v for v, g in flags if g == [[]]]
+    cond = [(v, g) for v, g in flags if g != [[]]]
+    ok_w = len(shl_run) == 1 and len(shl_lit) == 1 and len(uncond) == 1 and len(cond) == 1 and not lit_flags
+    ones_byte = None
+    if ok_w:
+        g = cond[0][1]
+        if len(g) == 1 and len(g[0]) == 1 and g[0][0][0] == 'lin' and g[0][0][2] == g[0][0][3] and len(g[0][0][1]) == 1:
+            ones_byte = g[0][0][2] * g[0][0][1][0][1]
+    ob.check(ok_w and ones_byte is not None, 'bitfield_rle|writer-table', 'writer (bitfield_rle %s): run header = len << %s | %s, | %s when the byte is %s; literal header = len << %s'
+             % ('as locked', shl_run, uncond, [v for v, _ in cond], ones_byte, shl_lit),
+             'the header layout written by bitfield_rle could not be read from its MIR: %s / %s' % ([(o, v) for o, v, _ in oc], [(o, v) for o, v, _ in on]), where(wc))
+    if not (ok_w and ones_byte is not None):
+        return
+    run_flag, ones_flag = uncond[0], cond[0][0]
+    # the writer only makes runs of 0x00 and of the `ones` byte
+    # reader
+    r = W.fn(COMP + '::rle_decode')
+    cx, G = W.ctx(r), W.guards(r)
+    rs = [t for t in r.calls() if last_seg(t.callee.best) == 'resize']
+    ex = [t for t in r.calls() if last_seg(t.callee.best) == 'extend_from_slice']
+    if len(rs) != 1 or len(ex) != 1:
+        raise AnchorMissing('rle_decode: one resize (run) and one extend_from_slice (literal)')
+    bc_run = _bit_conditions(G.guard(rs[0].bb))
+    bc_lit = _bit_conditions(G.guard(ex[0].bb))
+    ob.check((run_flag, True) in bc_run and (run_flag, False) in bc_lit, 'rle_decode|run-flag', 'the reader takes a header with bit %d set as a run, clear as literal bytes' % run_flag,
+             'rle_decode does not tell runs from literals by header bit %d as bitfield_rle writes it (run under %s, literal under %s)' % (run_flag, sorted(bc_run), sorted(bc_lit)), where(r, rs[0].line))
+    # length shifts: the count that reaches resize / get(..len) is value >> shl under the respective flag
+    shifts = {}
+    for l in range(len(r.locals)):
+        for k, d in cx.full_defs(l):
+            if k != 'stmt':
+                continue
+            e = cx.expr_rvalue(d.rv)
+            if e[0] == 'bin' and e[1] == 'Shr' and e[3][0] == 'int':
+                # a shift that only feeds a bit test ((v >> s) & 1) is not the length
+                uses = [s2 for s2 in r.stmts() if s2.k == 'assign' and any(o.is_place() and o.place.local == l for o in s2.rv.operands())]
+                if uses and all(u.rv.k == 'bin' and u.rv.op == 'BitAnd' for u in uses):
+                    continue
+                bc = _bit_conditions(G.guard(d.bb))
+                for m, st in bc:
+                    if m == run_flag:
+                        shifts.setdefault(st, set()).add(int(e[3][1]))
+    ob.check(shifts.get(True) == {shl_run[0]} and shifts.get(False) == {shl_lit[0]}, 'rle_decode|length-shift',
+             'the reader takes the length as header >> %d for a run and header >> %d for literal bytes' % (shl_run[0], shl_lit[0]),
+             'rle_decode shifts the header by %s (run) / %s (literal); the writer shifted by %d / %d' % (sorted(shifts.get(True, [])), sorted(shifts.get(False, [])), shl_run[0], shl_lit[0]), where(r))
+    # fill byte
+    fill = rs[0].args[2]
+    alts = []
+    if fill.is_place():
+        loc = fill.place.local
+        for _ in range(4):
+            ds = list(cx.full_defs(loc))
+            if len(ds) == 1 and ds[0][0] == 'stmt' and ds[0][1].rv.k == 'use' and ds[0][1].rv.a.is_place() and not ds[0][1].rv.a.place.proj:
+                loc = ds[0][1].rv.a.place.local
+            else:
+                break
+        pd = G.phi_defs(loc)
+        if pd:
+            alts = [(key(v), _bit_conditions(G.guard(b))) for b, v in pd]
+        else:
+            defs = [(k, d) for k, d in cx.full_defs(loc) if k == 'stmt']
+            alts = [(key(cx.expr_rvalue(d.rv)), _bit_conditions(G.guard(d.bb))) for k, d in defs]
+    else:
+        alts = [(key(cx.expr_operand(fill)), set())]
+    ok = len(alts) == 2 and any(v == str(ones_byte) and (ones_flag, True) in bc for v, bc in alts) and any(v == '0' and (ones_flag, False) in bc for v, bc in alts)
+    ob.check(ok, 'rle_decode|fill-byte', 'a run is filled with %d when header bit %d is set and with 0 otherwise' % (ones_byte, ones_flag),
+             'rle_decode fills a run with %s; bitfield_rle sets header bit %d for runs of byte %d and clears it for runs of 0' % (alts, ones_flag, ones_byte), where(r, rs[0].line))
+    # the count handed to resize is the run length on top of the current length
+    a1 = key(cx.expr_operand(rs[0].args[1]))
+    ob.check(a1.startswith('(len(') and ' Add ' in a1, 'rle_decode|run-length', 'a run appends `len` bytes (resize to current length + len)',
+             'rle_decode resizes to `%s`' % a1[:120], where(r, rs[0].line))
+    # varint: seven bits per byte, continuation on bit 7 -- agreement with varinteger::encode
+    ve = W.fn('varinteger::encode_with_offset')
+    cxe = W.ctx(ve)
+    consts_w = set()
+    for s_ in ve.stmts():
+        if s_.k == 'assign' and s_.rv.k == 'bin':
+            e = cxe.expr_rvalue(s_.rv)
+            if e[0] == 'bin' and e[3][0] == 'int' and e[1] in ('BitAnd', 'BitOr', 'Shr', 'Ge', 'Gt'):
+                consts_w.add((e[1], int(e[3][1])))
+    consts_r = set()
+    for s_ in r.stmts():
+        if s_.k == 'assign' and s_.rv.k == 'bin':
+            e = cx.expr_rvalue(s_.rv)
+            if e[0] == 'bin' and e[3][0] == 'int' and int(e[3][1]) in (127, 128, 7):
+                consts_r.add((e[1].replace('WithOverflow', '').replace('Unchecked', ''), int(e[3][1])))
+    w_ok = ('Shr', 7) in consts_w and ('BitOr', 128) in consts_w and (('Gt', 127) in consts_w or ('Ge', 128) in consts_w)
+    r_ok = {('BitAnd', 127), ('BitAnd', 128), ('Add', 7)} <= consts_r
+    ob.check(w_ok and r_ok, 'rle_decode|varint', 'varint groups: 7 bits per byte, least significant first, bit 7 = continuation, on both sides',
+             'varint layout differs: writer constants %s, reader constants %s' % (sorted(consts_w), sorted(consts_r)), where(r))
+
+
 OBLIGATIONS = [
     ('C14.O1', 'totality of decode', 'no open panic-capable site and no unreviewed external callee in the call-graph closure of '
      'compression::decode; every site is discharged by analysis (no review entries): every byte string yields Ok or Err.', o1),
@@ -203,4 +386,7 @@ OBLIGATIONS = [
      'against the same reference.', o2),
     ('C14.O3', 'allocation bound', 'every growth of the RLE-decoded buffer is dominated by a comparison of the new length with the constant '
      'MAX_DECODED_LEN; delta_decode makes no sized allocation.', o3),
+    ('C14.O4', 'run-length layer: reader table = writer table', 'the header layout bitfield_rle writes (read from the dependency\'s typed MIR: run = len << 2 | 1, '
+     '| 2 for runs of 0xFF; literal = len << 1; varint groups of 7 bits) is the one rle_decode reads: same flag bits, same shifts, fill byte 0xFF/0x00 '
+     'under the same bit, run appended to the current length.', o4, {'deps': True}),
 ]
